@@ -92,6 +92,14 @@ def main(chk, args):
         corners = [c for c in cases if len(c['history']) == 4 and all(p['n'] == 0 for p in c['history'][:3])][:20]
         cases = corners + rnd.sample(cases, 380)
         chk.exhaustive = False
+    # beyond the model-checked bound: seeded random histories (up to 9 pages x 9 items) judged by PagerTrace only
+    extra = []
+    if not quick:
+        for j in range(400):
+            k = rnd.randint(1, 9)
+            hist = [dict(n=rnd.choice([0, 0, 1, 2, 3, 5, 9]), more=(rnd.random() < 0.85)) for _ in range(k)]
+            hist[-1]['more'] = False
+            extra.append(hist)
     api = carrier_api()
     with gen.scratch() as work:
         req, res = gen.generate_api(api, dict(transport=['grpc'], snippets=False), work)
@@ -104,6 +112,10 @@ def main(chk, args):
                 b = (i + len(kind)) % 2
                 allc.append(dict(id=f'{i}:{kind}', idx=i, kind=kind, pages=c['history'], base=BASES[b],
                                  md=[['x-verif-a', 'v1']] if b == 0 else [], timeout=30 if b == 0 else None))
+        for j, hist in enumerate(extra):
+            for kind in KINDS:
+                allc.append(dict(id=f'x{j}:{kind}', idx=-1, kind=kind, pages=hist, base=BASES[j % 2], md=[['x-verif-a', 'v1']] if j % 2 == 0 else [],
+                                 timeout=30 if j % 2 == 0 else None))
         for s in range(nshards):
             shard = allc[s::nshards]
             if shard:
@@ -117,6 +129,11 @@ def main(chk, args):
                 traces.extend(out['traces'])
     # 3. spec -> code comparison
     for tr in traces:
+        if tr['id'].startswith('x'):        # random history beyond the bound: no TLC prediction, judged by the trace spec below
+            chk.case('random:' + tr['id'] + '/' + tr['mode'], nontrivial=True)
+            if tr.get('error'):
+                chk.violation('random:' + tr['kind'] + '/' + tr['mode'], f"raised {tr['error']}", dict(trace=tr))
+            continue
         c = cases[int(tr['id'].split(':')[0])]
         key = f"{tr['kind']}/{tr['mode']}/" + ''.join(f"{p['n']}{'+' if p['more'] else '.'}" for p in tr['history'])
         chk.case(key, nontrivial=len(c['tokens']) > 1 or len(c['yielded']) > 0)
